@@ -1,7 +1,7 @@
 (* C03: the decoder is total and canonical on every byte sequence. *)
 From Coq Require Import ZArith NArith List Bool Lia.
 From Trion Require Import Base.Sweep Arm.Instr Arm.EncodeModel Arm.DecodeModel Arm.Armv6mSpec Arm.CodecCheck
-  Arm.DecSweep Arm.DecSweepBlAll.
+  Arm.DecSweep Arm.BlDecProofs.
 Import ListNotations.
 Open Scope N_scope.
 
